@@ -204,6 +204,18 @@ fn std_error_part() {
     let u2 = Unimock::new(ErrorMock::source.each_call(matching!()).answers_arc(Arc::new(move |u| Some(u.make_ref(std::fmt::Error) as &(dyn std::error::Error + 'static)))).at_least_times(0)).no_verify_in_drop();
     let _ = inner;
     emit("std.error", format!("{none}{}", std::error::Error::source(&u2).is_some()), "truetrue".into());
+    // the first un-mocked `&self` provided call on ONE shared instance, made by eight threads at once
+    let mut bad = String::new();
+    for round in 0..300 {
+        let u = Unimock::new(()).no_verify_in_drop();
+        let barrier = std::sync::Barrier::new(8);
+        let res: Vec<bool> = std::thread::scope(|sc| {
+            let hs: Vec<_> = (0..8).map(|_| sc.spawn(|| { barrier.wait(); std::error::Error::source(&u).is_none() })).collect();
+            hs.into_iter().map(|h| h.join().unwrap_or(false)).collect()
+        });
+        if res.iter().any(|ok| !ok) { bad = format!("round {round}: {res:?}"); break; }
+    }
+    emit("std.error.concurrent-first-provided-call", bad, String::new());
 }
 
 /// a user trait whose supertrait is a mirrored one: its provided method formats `self` — Display and Debug each with
